@@ -80,7 +80,7 @@ def items(G):
     def salt_prefix():
         cs = [c for c in G.bytes_consts(HD, "HDPrivateKey.from_mnemonic") if c[0] != b""]
         return G.pick(cs, 0, "b'mnemonic'")
-    yield G.bytes_("Mnemonic", "saltPrefix", salt_prefix)
+    yield G.bytes_("Mnemonic", "seedSaltPrefix", salt_prefix)
 
     def kdf_uses_rounds():
         # `iterations=PBKDF2_ROUNDS` keyword of the PBKDF2(...) call inside hmac_sha512_kdf
@@ -102,3 +102,24 @@ def items(G):
                         return kw.value.attr, f"{H}:{n.lineno}"
         _unl("hmac_sha512_kdf: PBKDF2(digestmodule=hashlib.X)")
     yield G.str_("Mnemonic", "kdfDigest", kdf_digest)
+
+    # vendored buidl/pbkdf2.py
+    P = "buidl/pbkdf2.py"
+
+    def counter_max():
+        # the Python-3 branch: `else: _0xffffffffL = 0xFFFFFFFF`
+        for node in G.tree(P).body:
+            if isinstance(node, ast.If):
+                for n in node.orelse:
+                    if isinstance(n, ast.Assign) and any(getattr(t, "id", None) == "_0xffffffffL" for t in n.targets):
+                        return G.ev(P, n.value), f"{P}:{n.lineno}"
+        _unl("pbkdf2.py: _0xffffffffL (python 3 branch)")
+    yield G.nat("Pbkdf2", "counterMax", counter_max)
+
+    def pack_fmt():
+        a, loc = G.pick(G.calls_const_args(P, "PBKDF2.__f", "pack"), 0, 'pack("!L", i)')
+        return a[0], loc
+    yield G.str_("Pbkdf2", "packFmt", pack_fmt)
+    yield G.nats("Pbkdf2", "readInts", lambda: ints(G, P, "PBKDF2.read"))        # i += 1 ; i < 1
+    yield G.nats("Pbkdf2", "fInts", lambda: ints(G, P, "PBKDF2.__f"))            # assert 1 <= i ; xrange(2, 1 + iterations)
+    yield G.nats("Pbkdf2", "setupInts", lambda: ints(G, P, "PBKDF2._setup"))     # iterations < 1 ; blockNum = 0
